@@ -273,6 +273,8 @@ def gen_config(rng, profile='C01'):
     cfg = {'cls': cls, 'fd_order': order, 'boundary': boundary,
            'param': param}
     cfg['Lambda'] = g.pick([0.0, 0.0, 0.3, -0.2])
+    cfg['interp_method'] = g.weighted([('linear', 6), ('nearest', 1),
+                                       ('cubic', 2)])
     cfg['tetrad'] = g.weighted([('quasi-Kinnersley', 3), ('other', 2)]) \
         if profile != 'C02' else g.pick(['quasi-Kinnersley', 'other'])
     cfg['vacuum'] = False
@@ -332,6 +334,7 @@ def gen_config(rng, profile='C01'):
                                        ('rho+rho0', 1), ('rho', 1)])
         cfg['extra_inputs'] = g.subset(['Tdown4', 'Weyl_Psi4', 'uup4'],
                                        0.0, 0.5) if g.chance(0.3) else []
+        cfg['psi4_excised'] = g.chance(0.5)
         cfg['metric_inputs'] = g.subset(
             ['alpha', 'dtalpha', 'betaup3', 'dtbetaup3', 'gammadown3',
              'Kdown3'], 0.5, 1.0, nonempty=True)
@@ -447,6 +450,10 @@ class World:
             if 'Weyl_Psi4' in cfg.get('extra_inputs', []):
                 inputs['Weyl_Psi4r'] = 0.01 * np.cos(0.2 * X - 0.3 * Y)
                 inputs['Weyl_Psi4i'] = 0.01 * np.sin(0.1 * Z + 0.2 * X)
+                if cfg.get('psi4_excised'):
+                    # an excised grid point, as analysis codes mark them
+                    inputs['Weyl_Psi4r'][0, 0, 0] = np.nan
+                    inputs['Weyl_Psi4i'][0, 0, 0] = np.nan
         if cfg.get('give_gdown4') and self.exact is not None:
             inputs = dict(inputs)
             inputs['gdown4'] = np.array(self.exact['g'])   # redundant, exact
@@ -482,6 +489,7 @@ class World:
                         p_['zmin'] + half[2])
         kw['extract_radii'] = [0.6 * min(half)]
         kw['lmax'] = 2
+        kw['interp_method'] = cfg.get('interp_method', 'linear')
         if knobs:
             kw['clear_cache_every_nbr_calc'] = cfg['period']
             if cfg['mem_scalars'] is not None:
@@ -715,7 +723,10 @@ class Engine:
         cfg = self.cfg
         rel, arrays = self.world.make(knobs=True)
         self.rel = rel
-        reg = Registry()
+        # C03 wants to SEE a frozen input being altered (checksum oracle I1),
+        # so there the read-only flag is not set; everywhere else it is, which
+        # names the source line of an in-place write
+        reg = Registry(readonly=(self.profile != 'C03'))
         for k, v in arrays.items():
             reg.add(f'input {k!r}', v)
         frozen = {k: (id(v), checksum(v)) for k, v in rel.data.items()}
